@@ -251,6 +251,7 @@ Placements == {"req_field",       \* message resource, type of a field of Req_r
                "req_self",        \* Req_r itself carries the resource annotation
                "lro_resp",        \* message resource, field of the LRO response type
                "lro_meta_only",   \* message resource, field of the LRO metadata type only
+               "ref_in_lro_resp", \* message resource, unreachable by type, named by a resource_reference on the LRO RESPONSE type
                "ref_in_req",      \* message resource, unreachable by type, named by resource_reference.type on Req_r
                "child_ref_resp",  \* message resource, unreachable by type, named by resource_reference.child_type on Resp_r
                "ref_nested",      \* message resource, named by a reference on a field of Mid_r
@@ -275,6 +276,7 @@ TypeEdges(r, w) == {<<N("Resp", r), N("Mid", r)>>} \cup
       [] OTHER               -> {}
 RefEdges(r, w) ==      \* <<message whose field carries the reference, resource>>
     CASE w \in {"ref_in_req", "file_ref", "dep_file_ref"} -> {<<N("Req", r), r>>}
+      [] w = "ref_in_lro_resp" -> {<<N("LroResp", r), r>>}
       [] w = "child_ref_resp" -> {<<N("Resp", r), r>>}
       [] w = "ref_nested"     -> {<<N("Mid", r), r>>}
       [] OTHER                -> {}
@@ -287,7 +289,7 @@ VisibleResources(svc, pl) ==
     {r \in DOMAIN pl : IsMessageResource(pl[r]) /\ MsgNode(r, pl[r]) \in Reach(svc, pl)}
     \cup {r \in DOMAIN pl : \E e \in RefEdges(r, pl[r]) : e[1] \in Reach(svc, pl)}
 \* independent statement of the same as a table (TLC checks that graph and table agree)
-TableS1 == {"req_field", "resp_nested", "req_self", "lro_resp", "ref_in_req", "child_ref_resp", "ref_nested", "file_ref", "dep_file_ref"}
+TableS1 == {"req_field", "resp_nested", "req_self", "lro_resp", "ref_in_lro_resp", "ref_in_req", "child_ref_resp", "ref_nested", "file_ref", "dep_file_ref"}
 TableS2 == {"other_service"}
 Helpers(svc, pl) == {N("res", r) : r \in VisibleResources(svc, pl)} \cup {N("common", CommonNames[i]) : i \in 1..Len(CommonNames)}
 
